@@ -15,5 +15,5 @@ import (
 func main() {
 	run := hx.Start("C16", "Aurora.C16.Corr",
 		"histories of 5..15 node operations over 2..4 files of 1..4 chunks (256 KiB blocks from a pool of 5: identical chunks, repeated chunks, chunk-aligned prefix files, the bare /bytes reference of a manifest's content): uploads, pyramid exchange + chunk retrieval into the cache, reads, root pins/unpins, DELETE /aurora/{root}, chunk-transfer registrations, collection runs with capacity 2..10; non-trivial = a DELETE answered 200 or a run recycled a file; distinct by (capacity, files, operations)")
-	gcx.Main(run, &gcx.C16Oracle{}, 14, 400)
+	gcx.Main(run, &gcx.C16Oracle{}, 20, 900)
 }
